@@ -20,7 +20,11 @@ func (c02) Rule() string {
 func (c02) Components() (real, stub []string) { return c03{}.Components() }
 
 func (c02) Gen(rng *rand.Rand, tier string, k int) *Case {
-	return genIndCase(rng, tier, true)
+	c := genIndCase(rng, tier, true)
+	if rng.Intn(12) == 0 {
+		c.Variant = 3 // every non-period parameter zero (a zero multiplier, a zero percentage)
+	}
+	return c
 }
 
 func (c02) Shrinks(c *Case) []*Case {
